@@ -30,7 +30,11 @@ class Rec:
         return self.start <= t <= self.end and (t - self.start) % self.freq == 0
 
 
-def make_world():
+def make_world(flavour=()):
+    """flavour: user-side variations the library must not care about -
+       'truthy_model' (a Model subclass whose __bool__ always answers True), 'falsy_sys' (systems with __len__ == 0, e.g.
+       a collector sized by its records), 'eq_sys' (systems comparing equal by identifier), 'np_prio' (priorities taken
+       from a numpy array), 'np_flag' (flags given as numpy bools / 1)."""
     from ECAgent.Core import Model, System
 
     class Scripted(System):
@@ -83,6 +87,14 @@ def make_world():
                         w.added.add(id(s))
                         w.reg.append(Rec(s, sid, prio, 1, 0, BIG, w.stamp, []))
                         w.stamp += 1
+                elif act[0] == 'retime' and act[4] == t:
+                    # a system re-schedules a LATER system of this timestep: the window it has when its turn comes counts
+                    _, sid, field, value, _t = act
+                    if sid in sm.systems:
+                        setattr(sm.systems[sid], field, value)
+                        for r in w.reg:
+                            if r.id == sid:
+                                setattr(r, field if field != 'frequency' else 'freq', value)
                 elif act[0] == 'add' and (len(act) == 3 or act[3] == t):
                     sid, prio = act[1], act[2]
                     if sid not in sm.systems:
@@ -95,7 +107,27 @@ def make_world():
     class World:
         pass
     w = World()
-    w.model = Model(seed=1)
+    w.flavour = tuple(flavour)
+    if 'truthy_model' in flavour:
+        class TruthyModel(Model):
+            _verif_user = True
+
+            def __bool__(self):
+                return True
+        w.model = TruthyModel(seed=1)
+    else:
+        w.model = Model(seed=1)
+    if 'falsy_sys' in flavour:
+        class Scripted(Scripted):           # noqa: F811
+            def __len__(self):
+                return 0
+    if 'eq_sys' in flavour:
+        class Scripted(Scripted):           # noqa: F811
+            def __eq__(self, other):
+                return isinstance(other, System) and other.id == self.id
+
+            def __hash__(self):
+                return hash(self.id)
     w.Scripted = Scripted
     w.log = []
     w.removed = {}
@@ -114,10 +146,21 @@ def expected_order(w):
 def run_history(ops, props=('C01', 'C02', 'C05', 'C06')):
     """Apply ops to a fresh model.  Returns list of (property, message) oracle violations."""
     from ECAgent.Core import ModelCompleteError, SystemNotFoundError
-    w = make_world()
+    flavour = tuple(op[1] for op in ops if op[0] == 'flavour')
+    ops = [op for op in ops if op[0] != 'flavour']
+    w = make_world(flavour)
     m = w.model
     sm = m.systems
     out = []
+
+    def _truth(model):
+        return False if 'truthy_model' in flavour else bool(model)
+
+    def _prio(p):
+        if 'np_prio' in flavour:
+            import numpy as np
+            return np.uint8(p) if p >= 0 else np.int8(p)
+        return p
     w.dynamic = any(op[0] == 'add' and any(a[0] in ('add', 'remove', 'replace') for a in op[6]) for op in ops)
     global LAST_DYNAMIC
     LAST_DYNAMIC = w.dynamic
@@ -127,7 +170,7 @@ def run_history(ops, props=('C01', 'C02', 'C05', 'C06')):
         if kind == 'add':
             _, sid, prio, freq, start, end, script = op
             end = BIG if end is None else end
-            s = w.Scripted(sid, m, prio, freq, start, end, script=script, world=w)
+            s = w.Scripted(sid, m, _prio(prio), freq, start, end, script=script, world=w)
             taken = any(r.id == sid for r in w.reg)
             before = monitor.fingerprint((sm.systems, sm.execution_queue))
             try:
@@ -273,7 +316,11 @@ def run_history(ops, props=('C01', 'C02', 'C05', 'C06')):
                         if quiet:       # a legal logging setup: nobody listens at INFO level
                             _lg.disable(_lg.INFO)
                         try:
-                            sm.execute_systems(True)
+                            flag = True
+                            if 'np_flag' in flavour:
+                                import numpy as np
+                                flag = np.True_ if t0 % 2 == 0 else 1
+                            sm.execute_systems(flag)
                         finally:
                             if quiet:
                                 _lg.disable(_lg.NOTSET)
@@ -291,7 +338,7 @@ def run_history(ops, props=('C01', 'C02', 'C05', 'C06')):
                         out.append(('C06', 'timestep advanced on a completed model'))
                     if monitor.fingerprint((sm.systems, sm.execution_queue, sm.timestep)) != state0:
                         out.append(('C06', 'scheduler state changed on a completed model'))
-                    if m.is_running() or bool(m):
+                    if m.is_running() or _truth(m):
                         out.append(('C06', 'completed model reports running'))
                     continue
                 if sm.timestep != t0 + 1:
@@ -322,7 +369,7 @@ def run_history(ops, props=('C01', 'C02', 'C05', 'C06')):
                         out.append((dyn or 'C02', f'{r.id} due at t={t0} did not run'))
                         if dyn:
                             out.append(('C02', f'{r.id} due at t={t0} and registered throughout did not run'))
-                if not m.is_running() and (m.is_running() or bool(m)):
+                if not m.is_running() and (m.is_running() or _truth(m)):
                     out.append(('C06', 'completed model reports running'))
     return out
 
@@ -418,6 +465,12 @@ def dynamic_histories():
                 ops = [('add', f's{k}', 0, 1, 0, None, [edits[0]] if k == 0 else ([edits[1]] if k == 1 else []))
                        for k in range(5)]
                 yield ops + [('step', 3)]
+    # a system re-schedules a later system of the same timestep (start / end / frequency): the later one runs iff it is
+    # due by the window it has when its turn comes
+    for field, value, t in (('end', 2, 3), ('start', 6, 3), ('frequency', 4, 2), ('end', 0, 1), ('start', 0, 0)):
+        ops = [('add', 's0', 1, 1, 0, None, [('retime', 's2', field, value, t)]), ('add', 's1', 0, 1, 0, None, []),
+               ('add', 's2', 0, 1, 0, None if field != 'start' or value else 9, [])]
+        yield ops + [('step', 8)]
     # equal priorities with a mid-step removal of a system that is not the first of its priority class
     for target in (1, 2, 3):
         ops = [('add', f's{k}', (1 if k == 0 else 0), 1, 0, None, [('remove', f's{target}', 1)] if k == 0 else [])
@@ -461,7 +514,28 @@ def random_history(rng, dynamic=False):
     return ops
 
 
+def flavoured_histories(dynamic):
+    """user-side variations (see make_world): the same orders, windows and removals must hold"""
+    base = [('add', 'c0', -1, 1, 0, None, []), ('add', 's0', 0, 1, 0, None, []), ('add', 's1', 2, 2, 1, 7, []),
+            ('add', 's2', 1, 3, 1, None, []), ('add', 's3', 0, 1, 0, 3, []), ('step', 3), ('readd', 's0'), ('step', 2),
+            ('remove', 's1'), ('add', 's1', 3, 1, 0, None, []), ('step', 2), ('complete',), ('step_err',), ('step_err',),
+            ('step', 1), ('exec', 2)]
+    for fl in ('truthy_model', 'falsy_sys', 'eq_sys', 'np_prio', 'np_flag'):
+        yield [('flavour', fl)] + base
+    if dynamic:
+        for fl in ('falsy_sys', 'eq_sys', 'truthy_model'):
+            for pos in range(3):
+                for target in range(3):
+                    yield [('flavour', fl)] + [('add', f's{k}', 0, 1, 0, None, [('replace', f's{target}', 1, 1)] if k == pos else [])
+                                               for k in range(3)] + [('step', 3)]
+                    yield [('flavour', fl)] + [('add', f's{k}', 0, 1, 0, None, [('remove', f's{target}', 1)] if k == pos else [])
+                                               for k in range(3)] + [('step', 3)]
+            yield [('flavour', fl), ('add', 'a', 1, 1, 0, None, [('complete', 2)]), ('add', 'b', 0, 1, 0, None, []),
+                   ('add', 'c', 0, 2, 0, None, []), ('step', 5), ('step_err',)]
+
+
 def histories(seed, budget, dynamic=False):
+    yield from flavoured_histories(dynamic)
     if dynamic == 'both':
         yield from small_histories()
         yield from dynamic_histories()
